@@ -74,9 +74,11 @@ theorem blocks_by_index_lens {α} (f : Nat → Nat → List α) (hf : ∀ o n, (
 theorem arangeElem_int (start step : Int) (i : Nat) :
     arangeElem intArith start (start + step) i = start + (i : Int) * step := by
   unfold arangeElem intArith
+  by_cases h0 : i = 0
+  · subst h0; simp
   by_cases h : i = 1
   · subst h; simp
-  · simp only [h, if_false]
+  · simp only [h0, h, if_false]
     have : start + step - start = step := by omega
     rw [this]
 
